@@ -95,6 +95,13 @@ trait Sut {
     }
     fn set(&mut self, c: &str, st: &Value);
     fn project(&self) -> Value;
+    /// store and restore the state that holds the orders (serde_json round trip)
+    fn persist(&mut self) -> Result<(), String>;
+}
+
+fn round_trip<T: serde::Serialize + serde::de::DeserializeOwned>(v: &T) -> Result<T, String> {
+    let text = serde_json::to_string(v).map_err(|e| format!("serialise: {e}"))?;
+    serde_json::from_str(&text).map_err(|e| format!("deserialise: {e}"))
 }
 // keys used by the stand-alone `Orders` (any Debug + Clone type works for the generic impl)
 #[allow(non_camel_case_types)]
@@ -171,6 +178,10 @@ impl Sut for DirectSut {
                 self.orders.0.insert(cid, order_with(key_direct(c), i(st, "q"), i(st, "s"), a));
             }
         }
+    }
+    fn persist(&mut self) -> Result<(), String> {
+        self.orders = round_trip(&self.orders)?;
+        Ok(())
     }
     fn project(&self) -> Value {
         let mut m = serde_json::Map::new();
@@ -304,6 +315,11 @@ impl Sut for EngineSut {
             }
         }
     }
+    fn persist(&mut self) -> Result<(), String> {
+        // (the instrument states hold the orders; a whole EngineState has non-string map keys)
+        self.state.instruments = round_trip(&self.state.instruments)?;
+        Ok(())
+    }
     fn project(&self) -> Value {
         let mut m = serde_json::Map::new();
         for c in CIDS {
@@ -389,6 +405,15 @@ fn log_batch(out: &mut Out, sut: &mut dyn Sut, evs: &[Value], variant: u64) {
     out.line(&json!({"a": "Batch", "evs": evs, "v": variant, "post": post}));
 }
 
+fn log_persist(out: &mut Out, sut: &mut dyn Sut) {
+    let post = match catch(|| sut.persist()) {
+        Ok(Ok(())) => sut.project(),
+        Ok(Err(e)) => json!({"panic": e}),
+        Err(p) => json!({"panic": p}),
+    };
+    out.line(&json!({"a": "Persist", "post": post}));
+}
+
 fn same_exchange(a: &Value, b: &Value) -> bool {
     home(s(a, "c")).0 == home(s(b, "c")).0
 }
@@ -411,6 +436,7 @@ fn main() {
     let mut out = Out::create(args.req("out"));
     let mut sut = new_sut(&mode);
     let mut batches = 0usize;
+    let mut persists = 0usize;
     match args.cmd.as_str() {
         "run" => {
             let scenarios = read_ndjson(args.req("scenarios"));
@@ -421,6 +447,16 @@ fn main() {
                 while j < evs.len() {
                     // in the engine family a third of the runs of consecutive reports of one exchange
                     // arrive together, inside one full account snapshot
+                    if s(&evs[j], "a") == "Persist" {
+                        persists += 1;
+                        log_persist(&mut out, sut.as_mut());
+                        j += 1;
+                        continue;
+                    }
+                    if (n + j) % 7 == 3 {
+                        persists += 1;
+                        log_persist(&mut out, sut.as_mut());
+                    }
                     if s(&evs[j], "a") == "Batch" {
                         // replay of a recorded scenario: the grouping is given
                         batches += 1;
@@ -457,6 +493,10 @@ fn main() {
                     since_reset = 0;
                 }
                 since_reset += 1;
+                if rng.random_range(0..100) < 4 {
+                    persists += 1;
+                    log_persist(&mut out, sut.as_mut());
+                }
                 if mode == "engine" && rng.random_range(0..100) < 12 {
                     // one account snapshot with 2..=4 reports about c1 / c2 (exchange 0) or c3 (exchange 1),
                     // typically several about the same id: open then terminal, terminal then open, stale, ties
@@ -511,5 +551,5 @@ fn main() {
         c => usage(&format!("unknown command {c}")),
     }
     let n = out.finish();
-    println!("{}", json!({"lines": n, "mode": mode, "account_snapshots_with_several_reports": batches}));
+    println!("{}", json!({"lines": n, "mode": mode, "account_snapshots_with_several_reports": batches, "store_restore_round_trips": persists}));
 }
